@@ -45,7 +45,7 @@ def gen_cases(tier, seed):
             # a user callback other than a plan function fails: an observer notification, the retry decorator, transform_physical
             out.append({"seed": s, "mode": "callback_fault", "n": r.randint(1, 14), "W": r.choice([1, 2, 4, 8]), "sched": r.choice(["default", "random"]),
                         "where": r.choice(["obs_total", "obs_running", "obs_completed", "obs_failed", "retry_wrap", "retry_call", "transform_raise", "transform_none",
-                                           "html_output_raises", "html_path_missing_dir", "html_output_raises"]),
+                                           "html_output_raises", "html_path_missing_dir", "html_output_raises", "html_output_slow"]),
                         "j": r.choice([1, 1, 2, 3, 5]), "kind": r.choice(["exc", "exc", "base"]), "cfg": {"out": r.choice(["all", "sinks"])},
                         "max_errors": r.choice([0, 0, 2, None])})
             continue
@@ -152,7 +152,16 @@ def run_thread_start_fault(desc):
             threading.Thread.start = real_start
     H = R.H
     bad = None
-    if R.in_flight_at_return:
+    t_ret = time.monotonic()
+    if desc.get("where") == "html_output_slow":
+        still = [t.name for t in R.leaked if t.is_alive()]
+        time.sleep(0.3)
+        late = [x for x in state.get("out_ends", []) if x > t_ret]
+        if still:
+            bad = f"thread(s) created by run still alive when it returned/raised ({R.exc!r}): {still}" + (f"; {len(late)} display output call(s) ended afterwards" if late else "")
+    if bad:
+        pass
+    elif R.in_flight_at_return:
         bad = f"{R.in_flight_at_return} of the plan's functions still executing when run returned/raised"
     else:
         leaked = [t for t in R.leaked if t.is_alive()]
@@ -261,6 +270,14 @@ def run_callback_fault(desc):
             def out(b):
                 raise OSError(28, "No space left on device")
             obs_f = lambda: with_counting_event(up.HtmlProgressObserver(out, initial_update_delay=0.0005, min_update_interval=0.0005, max_update_interval=0.002))
+        elif where == "html_output_slow":
+            # a display whose output takes much longer than its longest update interval (slow mount, busy front end): run still returns only
+            # after the display's thread has written its last frame and exited
+            def out(b):
+                state.setdefault("out_calls", []).append(time.monotonic())
+                time.sleep(0.12)
+                state.setdefault("out_ends", []).append(time.monotonic())
+            obs_f = lambda: with_counting_event(up.HtmlProgressObserver(out, initial_update_delay=0.0005, min_update_interval=0.0005, max_update_interval=0.01))
         else:
             missing = "/nonexistent-dir-for-vmon/sub/progress.html"
             obs_f = lambda: with_counting_event(up.HtmlProgressObserver(lambda b: open(missing, "wb").write(b), initial_update_delay=0.0005, min_update_interval=0.0005, max_update_interval=0.002))
@@ -289,7 +306,16 @@ def run_callback_fault(desc):
         R = plainrun.execute(d, record_args=False, hang_watch=False, progress=progress, extra_run_kwargs=xkw)
     H = R.H
     bad = None
-    if R.in_flight_at_return:
+    t_ret = time.monotonic()
+    if desc.get("where") == "html_output_slow":
+        still = [t.name for t in R.leaked if t.is_alive()]
+        time.sleep(0.3)
+        late = [x for x in state.get("out_ends", []) if x > t_ret]
+        if still:
+            bad = f"thread(s) created by run still alive when it returned/raised ({R.exc!r}): {still}" + (f"; {len(late)} display output call(s) ended afterwards" if late else "")
+    if bad:
+        pass
+    elif R.in_flight_at_return:
         bad = f"{R.in_flight_at_return} of the plan's functions still executing when run returned/raised"
     else:
         leaked = [t for t in R.leaked if t.is_alive()]
